@@ -424,7 +424,10 @@ def d4(cx: Cx, ob: Ob) -> None:
             ob.violate(fn.qualname, where(fn, line), "parse_uri is called without return_none=True: unrecognised URIs yield (None, None), which is not None", detail="return-none")
         if not is_const(dict(it[3]).get("strict"), True):
             ob.violate(fn.qualname, where(fn, line), "expand_pair_all is called without strict=True and may return None, which is then iterated", detail="strict")
-        if t[2] != ("call", ("ext", "rdflib.URIRef"), (tgt,), ()):
+        if t[2] == tgt:
+            # plain strings: turning them into RDF terms is then up to triples() (C18-D5 asks for it on both sides)
+            ob.site(f"{where(fn, line)} {fn.qualname}", "answers are plain strings (wrapped by the caller)")
+        elif t[2] != ("call", ("ext", "rdflib.URIRef"), (tgt,), ()):
             ob.violate(fn.qualname, where(fn, line), f"answers are `{show(t[2])[:40]}`, not URIRef(uri)", detail="element")
         valid = [c for c in ifs if op(c) == "call" and callee_name(c) == "_is_valid_uri" and c[2] == (tgt,)]
         if not valid:
@@ -480,14 +483,22 @@ def d5(cx: Cx, ob: Ob) -> None:
         from ..rules import _strip_views
 
         ren = {}
+
+        def elem_of(src):
+            src_ = _strip_views(src)
+            if op(src_) == "comp" and src_[1] in ("gen", "list") and len(src_[3]) == 1 and not src_[3][0][2]:
+                # an element of (f(x) for x in xs) is f(<element of xs>)
+                return substitute(src_[2], {src_[3][0][0]: elem_of(src_[3][0][1])})
+            return ("elem", src_)
+
         for one in lp:
             tgt = one.a
             it = one.b
             if op(tgt) == "tuple" and op(it) == "call" and it[1] == ("ext", "itertools.product"):
                 for v, src in zip(tgt[1], it[2]):
-                    ren[v] = ("elem", _strip_views(src))
+                    ren[v] = elem_of(src)
             elif op(tgt) == "bv":
-                ren[tgt] = ("elem", _strip_views(it))
+                ren[tgt] = elem_of(it)
         yy = substitute(y, ren)
         gg = [frozenset((g, pol) for g, pol in gs if any(x in (S, O) for x in subterms(g))) for gs in alts]
         return yy, gg
@@ -564,6 +575,15 @@ def d5(cx: Cx, ob: Ob) -> None:
             if reg - {(True, False), (False, True)}:
                 ob.violate(fn.qualname, fn.where, f"a branch also runs when both or neither side of the pattern is bound: {sorted(reg)}", detail="binding-region")
     # the bound side is echoed, the free side comes from _expand_pair_all(bound)
+    hfn = cx.model.functions.get(f"{A}.MappingServiceGraph._expand_pair_all")
+    helper_wraps = None
+    if hfn is not None:
+        hs_ = cx.summary(hfn, ob.id)
+        outs = [t_ for t_, _ in hs_.returns()]
+        if any(any(op(x) == "ext" and x[1] == "rdflib.URIRef" for x in subterms(t_)) for t_, _, _ in hs_.all_terms()):
+            helper_wraps = True
+        elif outs:
+            helper_wraps = False
     for yy, gg in (a, b):
         s_, p_, o_ = yy[1]
         bound, free, src = (o_, s_, O) if o_ == O else (s_, o_, S) if s_ == S else (None, None, None)
@@ -571,7 +591,10 @@ def d5(cx: Cx, ob: Ob) -> None:
             ob.violate(fn.qualname, fn.where, "a branch does not echo the bound side of the pattern", detail="echo")
             continue
         want = ("elem", ("call", ("attr", me, "_expand_pair_all"), (src,), ()))
-        if free != want:
+        wrapped = ("call", ("ext", "rdflib.URIRef"), (want,), ())
+        if helper_wraps is False and free == want:
+            ob.violate(fn.qualname, fn.where, "the free side is a plain string: _expand_pair_all returns str and this branch does not wrap it in URIRef, so the triple carries a Python str where rdflib's result serialisers need a term (JSON / XML results fail)", witness="?o-bound query answered as JSON: HTTP 500", detail="free-side-not-a-term")
+        elif free != want and free != wrapped:
             ob.violate(fn.qualname, fn.where, f"the free side is `{show(free)[:50]}`, not an element of _expand_pair_all(<bound URI>)", detail="free-side")
         if p_ != ("elem", ("attr", me, "query_predicates")):
             ob.violate(fn.qualname, fn.where, f"the predicate produced is `{show(p_)[:40]}`, not an element of the configured predicates", detail="predicate")
